@@ -711,7 +711,11 @@ where
     }
     DMatrix::from_vec(rows, cols, elements)
   }
-  fn value_kind(&self) -> ValueKind { self.value_kind() }
+  fn value_kind(&self) -> ValueKind {
+    // the kind of a matrix is the kind of its elements and its shape
+    let elem_kind = self.iter().next().map(|e| e.value_kind()).unwrap_or(ValueKind::Empty);
+    ValueKind::Matrix(Box::new(elem_kind), vec![self.nrows(), self.ncols()])
+  }
   fn align() -> u8 { 8 }
 }
 
@@ -746,7 +750,11 @@ where
     }
     DVector::from_vec(elements)
   }
-  fn value_kind(&self) -> ValueKind { self.value_kind() }
+  fn value_kind(&self) -> ValueKind {
+    // the kind of a matrix is the kind of its elements and its shape
+    let elem_kind = self.iter().next().map(|e| e.value_kind()).unwrap_or(ValueKind::Empty);
+    ValueKind::Matrix(Box::new(elem_kind), vec![self.nrows(), self.ncols()])
+  }
   fn align() -> u8 { 8 }
 }
 
@@ -781,7 +789,11 @@ where
     }
     RowDVector::from_vec(elements)
   }
-  fn value_kind(&self) -> ValueKind { self.value_kind() }
+  fn value_kind(&self) -> ValueKind {
+    // the kind of a matrix is the kind of its elements and its shape
+    let elem_kind = self.iter().next().map(|e| e.value_kind()).unwrap_or(ValueKind::Empty);
+    ValueKind::Matrix(Box::new(elem_kind), vec![self.nrows(), self.ncols()])
+  }
   fn align() -> u8 { 8 }
 }
 
@@ -914,7 +926,10 @@ where
       }
     }
   }
-  fn value_kind(&self) -> ValueKind { self.value_kind() }
+  fn value_kind(&self) -> ValueKind {
+    let elem_kind = self.as_vec().first().map(|e| e.value_kind()).unwrap_or(ValueKind::Empty);
+    ValueKind::Matrix(Box::new(elem_kind), self.shape())
+  }
   fn align() -> u8 { T::align() }
 }
 
@@ -1024,7 +1039,7 @@ impl ConstElem for Value {
     }
   }
   fn value_kind(&self) -> ValueKind {
-    self.value_kind()
+    self.kind()
   }
   fn align() -> u8 {
     1
